@@ -21,7 +21,7 @@ RULE = ('cases are 3-8 armored objects of drawn kinds / payload lengths / bodies
         'kinds were decoded by the independent decoder and at least one corrupted delivery was judged; distinct = distinct '
         '(kind, payload length mod 48, delivery forms, fault places) tuples')
 TIERS = {"quick": {"runs": 8000, "budget_s": 80}, "thorough": {"runs": 300000, "budget_s": 1500}}
-PROBES = ('binary_ends_in_whitespace_octet', 'kind_pubkey', 'kind_privkey', 'kind_message', 'kind_signature', 'kind_cleartext', 'crc_leading_zero_octet', 'payload_mod3_0',
+PROBES = ('lone_public_subkey_armored', 'binary_ends_in_whitespace_octet', 'kind_pubkey', 'kind_privkey', 'kind_message', 'kind_signature', 'kind_cleartext', 'crc_leading_zero_octet', 'payload_mod3_0',
           'payload_mod3_1', 'payload_mod3_2', 'delivered_crlf', 'delivered_bytes', 'delivered_bytearray', 'delivered_file', 'delivered_surrounded',
           'extra_headers', 'f6_raised', 'f6_crc_warning', 'f6_same_payload', 'wrong_kind_rejected', 'body_zeros', 'body_ff')
 KINDS = ['message', 'message', 'message', 'pubkey', 'privkey', 'signature', 'cleartext']
@@ -89,6 +89,18 @@ def _make(pgpy, key, st, ctx):
         obj = world.build_key({'alg': 'ed25519', 'uids': [['V' * st['uidlen'], '', 'v@example.org']], 'usage': 'CS',
                                'subkeys': [{'alg': 'cv25519', 'usage': 'E'}]}, 'c10' + st['id'])
         label = 'PRIVATE KEY BLOCK'
+        if st['seed'] % 3 == 0:
+            # the public half of a lone subkey, taken before the primary's public half exists: labelled by what it is
+            ps = list(obj.subkeys.values())[0].pubkey
+            ctx.checked()
+            ctx.probe('lone_public_subkey_armored')
+            try:
+                blk = rarmor.dearmor(str(ps))
+                if blk.label != 'PUBLIC KEY BLOCK' or blk.payload != bytes(ps) or split_packets(blk.payload)[0].tag != 14 or not blk.crc_ok:
+                    ctx.viol('C10:label-wrong:lone-public-subkey', 'the public half of a private subkey is armored as %r (first packet tag %d, payload %s)'
+                             % (blk.label, split_packets(blk.payload)[0].tag, 'equal' if blk.payload == bytes(ps) else 'differs'))
+            except rarmor.ArmorError as e:
+                ctx.viol('C10:armor-undecodable', 'armor of a lone public subkey: %s' % e)
     elif kind == 'signature':
         obj = key.sign(_body(st))
         label = 'SIGNATURE'
